@@ -595,6 +595,14 @@ func (env *Env) evalCall(t *ECall) Value {
 	case "off":
 		v := env.eval(t.Args[0])
 		return c.Scalar(tInt, v.SOff())
+	case "arg":
+		// arg(i): i-th argument of the call an assertion is anchored at
+		if lit, ok := t.Args[0].(*EInt); ok {
+			if v, ok := env.vars["$arg"+lit.V.String()]; ok {
+				return v
+			}
+		}
+		env.fail("arg(): only inside an assertion anchored at a call, with a literal index")
 	case "calls":
 		// calls(f): how many calls named f the function's own body has executed so far
 		k, ok := x.callCounters[exprString(t.Args[0])]
